@@ -858,6 +858,7 @@ impl<'a> Searcher<'a> {
         if let Some(ref _function) = column_expr.function {
             let result =
                 self.get_function_value(entry, file_info, file_map, buffer_data, column_expr);
+            let result = Self::apply_minus(column_expr, result);
             file_map.insert(column_expr_str, result.to_string());
             return result;
         }
@@ -865,6 +866,7 @@ impl<'a> Searcher<'a> {
         if let Some(ref field) = column_expr.field {
             if entry.is_some() {
                 let result = self.get_field_value(entry.unwrap(), file_info, field);
+                let result = Self::apply_minus(column_expr, result);
                 file_map.insert(column_expr_str, result.to_string());
                 return result;
             } else if let Some(val) = file_map.get(&field.to_string()) {
@@ -888,7 +890,7 @@ impl<'a> Searcher<'a> {
                 if let Some(ref right) = column_expr.right {
                     let right_result =
                         self.get_column_expr_value(entry, file_info, file_map, buffer_data, right);
-                    result = op.calc(&left_result, &right_result);
+                    result = Self::apply_minus(column_expr, op.calc(&left_result, &right_result));
                     file_map.insert(column_expr_str, result.to_string());
                 } else {
                     result = left_result;
@@ -901,6 +903,18 @@ impl<'a> Searcher<'a> {
         }
 
         result
+    }
+
+    /// A leading minus negates a column, a function value or a bracketed expression
+    /// (literals carry their sign in their text).
+    fn apply_minus(column_expr: &Expr, value: Variant) -> Variant {
+        match column_expr.minus {
+            true => match value.get_type() {
+                VariantType::Int => Variant::from_int(-value.to_int()),
+                _ => Variant::from_float(-value.to_float()),
+            },
+            false => value,
+        }
     }
 
     fn get_function_value(
